@@ -115,8 +115,9 @@ def run_child(fn: Callable[[], Any], *, cpu_s: float = 10.0, mem_mb: int = 1024,
     return ChildResult(kind, None, cpu, wall, ru.ru_maxrss, err=str(val))
 
 
-class Hang(Exception):
-    """the tool used up its CPU allowance (or the wall-clock fallback) inside one call"""
+class Hang(BaseException):
+    """the tool used up its CPU allowance (or the wall-clock fallback) inside one call.  Not an Exception, so that a broad
+    `except Exception` inside the tool cannot swallow it; the timers repeat every second in case something does"""
 
 
 def _alarm(signum, frame):
@@ -136,8 +137,8 @@ def with_watchdog(fn, seconds: float = 2.0):
     old_p = signal.signal(signal.SIGPROF, _alarm)
     old_a = signal.signal(signal.SIGALRM, _alarm)
     _watching = True
-    signal.setitimer(signal.ITIMER_PROF, seconds)
-    signal.setitimer(signal.ITIMER_REAL, max(120.0, 30.0 * seconds))
+    signal.setitimer(signal.ITIMER_PROF, seconds, 1.0)
+    signal.setitimer(signal.ITIMER_REAL, max(120.0, 30.0 * seconds), 1.0)
     try:
         return fn()
     finally:
